@@ -40,7 +40,10 @@ Stages == 1..MaxStages
 NONE == "none"
 (* "signal": the stage dies of a signal at an arbitrary moment (realised with SIGSEGV and with SIGKILL) *)
 SelfEnds == {"exit1_before_read", "exit1_mid_write", "exit1_after", "signal"}   \* the stage fails on its own
-AllEnds == SelfEnds \cup {"exit0", "spawn_fails"}
+(* "exit0_nodrain": exits 0 after writing its output without reading its input to the end — outside the
+   assumption of C18's liveness clause; only used by MC_DriverProc_nodrain*.cfg to exhibit the schedule in which
+   the driver, holding the read end itself, waits forever for an upstream stage blocked on a full pipe *)
+AllEnds == SelfEnds \cup {"exit0", "spawn_fails", "exit0_nodrain"}
 
 NoChild == [st |-> "none", status |-> "", eof |-> FALSE, wr |-> 0, term |-> FALSE]
 NoPipe  == [buf |-> 0, r |-> {}, w |-> {}]
@@ -116,6 +119,7 @@ CExit(s) ==
   /\ ch[s].st = "run"
   /\ LET e == EndOf(s) IN
      \/ e = "exit0" /\ ch[s].eof /\ ch[s].wr = Target(s) /\ Die(s, "ok", "exit0") /\ UNCHANGED failed
+     \/ e = "exit0_nodrain" /\ ch[s].wr = Target(s) /\ Die(s, "ok", "exit0") /\ UNCHANGED failed
      \/ e = "exit1_after" /\ ch[s].eof /\ ch[s].wr = Target(s) /\ Die(s, "exit1", e) /\ failed' = TRUE
      \/ e = "exit1_mid_write" /\ ch[s].wr = Target(s) /\ Die(s, "exit1", e) /\ failed' = TRUE
      \/ e = "exit1_before_read" /\ Die(s, "exit1", e) /\ failed' = TRUE
